@@ -130,7 +130,7 @@ package storageos
 // Put: the write-side paths are the derived path and its parent directory, nothing else; an atomic put writes a
 // temporary file in that directory and remembers the derived path as the rename target, a plain put has no target.
 //@ func (b *bucket) Put(ctx, path, options) (w, err)
-//@   property C13 C14 C15
+//@   property C13 C14 C15 C09
 //@   modifies ghost.fail, ghost.wfail, ghost.j_osStat, ghost.j_osWrite
 //@   ensures validated: err == nil ==> validRel(Normalize(path)) && Normalize(path) != "."
 //@   ensures confined: forall q string :: q in ghost.j_osWrite && !(q in old(ghost.j_osWrite)) ==> validRel(Normalize(path)) && Normalize(path) != "." && (q == j_ext(b.rootPath, Normalize(path)) || q == filepath.Dir(j_ext(b.rootPath, Normalize(path))))
@@ -205,7 +205,7 @@ package storageos
 //
 // Write: a failed or short write is reported and latched for Close.
 //@ func (w *writeObjectCloser) Write(p) (n, err)
-//@   property C15
+//@   property C15 C09
 //@   modifies ghost.fail, ghost.wfail, ghost.j_atom
 //@   ensures reported: ghost.wfail && !old(ghost.wfail) ==> err != nil
 //@   ensures latched: ghost.wfail && !old(ghost.wfail) ==> ghost.j_atom != nil
@@ -218,7 +218,7 @@ package storageos
 // the temporary file is removed and nothing is renamed ("a failed atomic put leaves no new object behind", at the
 // level of the calls made). Without a target nothing is renamed or removed. Every failing sink is reported.
 //@ func (w *writeObjectCloser) Close() (err)
-//@   property C15
+//@   property C15 C09
 //@   modifies ghost.fail, ghost.wfail, ghost.j_osWrite, ghost.j_renameCalls, ghost.j_renameOk, ghost.j_renameFrom, ghost.j_renameTo, ghost.j_removeCalls, ghost.j_removed, ghost.j_lastFileClose
 //@   requires w.file != nil
 //@   ensures rename-iff-clean: ghost.j_renameCalls == old(ghost.j_renameCalls) + ite(w.path != "" && ghost.j_atom == nil && ghost.j_lastFileClose == nil, 1, 0)
